@@ -18,7 +18,7 @@ From Oras Require Import Base.Prelude Generated.GC05.
 Inductive rerr :=
 | EEof | EInjected | EUnexpEof | EBadDigest | ETrailing | EMismatch | EEarly
 | EInvalidSize | EExists | ETooBig | ENotFound | EDupName | EFuel
-| EWrite | EShortWrite | ETraversal.
+| EWrite | EShortWrite | ETraversal | EOverwrite.
 
 Definition is_eof (e : rerr) : bool := match e with EEof => true | _ => false end.
 
@@ -478,6 +478,36 @@ Section WithH.
              end
     end.
 
+  (* Store options that matter for non-manifest content: DisableOverwrite (resolveWritePath
+     refuses a path that exists), IgnoreNoName (unnamed content is discarded, Push
+     returns nil without reading it), the fallback storage's push limit
+     (NewWithFallbackStorage with an unlimited cas.Memory = None); ForceCAS only affects
+     manifests *)
+  Record fopts := mkOpts { o_disable_overwrite : bool; o_ignore_noname : bool; o_fb_limit : option Z }.
+  Definition default_opts : fopts := mkOpts false false (Some defaultFallbackPushSizeLimit).
+
+  Definition file_push_opt (o : fopts) (fuel : nat) (s : fstore) (name : str) (d : desc) (evs : list ev)
+    : option rerr * fstore :=
+    match name with
+    | [] =>
+        if o_ignore_noname o then (None, s)
+        else
+          let '(e, fb') := match o_fb_limit o with
+                           | Some l => limited_push (mem_push fuel) l (f_fb s) d evs
+                           | None => mem_push fuel (f_fb s) d (mkBase evs None)
+                           end in
+          (e, mkFs (f_files s) (f_names s) (f_d2p s) fb')
+    | _ =>
+        if name_in name (f_names s) then (Some EDupName, s)
+        else match resolve_name name with
+             | None => (Some ETraversal, s)
+             | Some path =>
+                 if o_disable_overwrite o && (match assoc_get (f_files s) path with Some _ => true | None => false end)
+                 then (Some EOverwrite, s)
+                 else file_push fuel s name path d evs
+             end
+    end.
+
   Definition file_exists (s : fstore) (name : str) (d : desc) : bool :=
     match name with
     | [] => match assoc_get (f_d2p s) (d_dg d) with
@@ -566,6 +596,13 @@ Section Histories.
   | file_reach_names_push comb fuel s name d evs e s' :
       file_reach_names s -> no_alias s name ->
       file_push_name H comb true fuel s name d evs = (e, s') -> file_reach_names s'.
+
+  (* histories of a file store with DisableOverwrite: ANY names, aliases included *)
+  Inductive file_reach_do : fstore -> Prop :=
+  | file_reach_do_nil : file_reach_do (mkFs [] [] [] [])
+  | file_reach_do_push o comb fuel s name d evs e s' :
+      file_reach_do s -> o_disable_overwrite o = true ->
+      file_push_opt H comb true o fuel s name d evs = (e, s') -> file_reach_do s'.
 
   (* ---------------------------------------------------------------- concurrent pushes into one OCI layout *)
   (* Each push is a thread: Stat, CreateTemp, a sequence of Writes to its own
